@@ -49,7 +49,7 @@ ASSUMPTIONS = [
     "register-future measurements are limited to 6 per flush segment (M registers are held until flush by design)",
 ]
 PROBES = ["other-connection-holds-registers", "epr-op", "ops>=100", "ops>=250", "flushes>=10", "depth-3", "if-on-future-unary",
-          "loop_until", "regfuture-measure"]
+          "loop_until", "regfuture-measure", "epr-nv-hardware", "window-capacity-probe"]
 
 REPEAT = 20
 
@@ -251,6 +251,11 @@ EPR_KINDS = ["create_keep", "recv_keep", "create_keep_post", "recv_keep_post", "
              "create_measure", "recv_measure", "create_rsp", "recv_rsp"]
 
 
+# on NV hardware: one pair at a time and every qubit measured at once (what happens with other qubits alive is the
+# subject of C09's recorded findings); the context forms are left out there (C09: their handles stay active)
+EPR_KINDS_NV = ["create_keep", "recv_keep", "recv_keep_as_is", "create_keep", "create_measure", "recv_measure", "create_rsp", "recv_rsp"]
+
+
 def epr_phase(ch: Choices, tier: str, bump, probes, faults, small: Dict[str, Any]) -> int:
     """Second half of the history: entanglement operations on a compile-only connection (the subroutines are
     assembled and encoded but not executed -- execution of these forms is C09/C10/C12's business; here only the
@@ -262,7 +267,14 @@ def epr_phase(ch: Choices, tier: str, bump, probes, faults, small: Dict[str, Any
     SimNetworkInfo.app_nodes["ghost"] = "g7"
     node2 = ControllerNode("n1", 1, TraceQMem(lambda q: 0), lambda: 0, flavour="vanilla", with_stack=True)
     sock = EPRSocket("ghost", epr_socket_id=0, remote_epr_socket_id=0)
-    conn2 = SimConnection("app2", node2, max_qubits=5, epr_sockets=[sock])
+    # a third of the histories compile for single-communication-qubit (NV) hardware: other code paths build the requests
+    nvhw = ch.flag(1, 3, "epr-nv-hardware")
+    if nvhw:
+        from netqasm.sdk.build_types import NVHardwareConfig
+        conn2 = SimConnection("app2", node2, max_qubits=5, epr_sockets=[sock], hardware_config=NVHardwareConfig(5))
+        bump(probes, "epr-nv-hardware")
+    else:
+        conn2 = SimConnection("app2", node2, max_qubits=5, epr_sockets=[sock])
     mm = conn2.builder._mem_mgr
     site: Dict[Any, str] = {}
     orig_add = mm.add_active_register
@@ -291,6 +303,9 @@ def epr_phase(ch: Choices, tier: str, bump, probes, faults, small: Dict[str, Any
         elif kind == "recv_keep":
             for q in sock.recv_keep(number=n):
                 q.measure()
+        elif kind == "recv_keep_as_is":
+            for q in sock.recv_keep(number=n, expect_phi_plus=False):
+                q.measure()
         elif kind == "create_keep_post":
             sock.create_keep(number=n, post_routine=post, sequential=True)
         elif kind == "recv_keep_post":
@@ -316,9 +331,38 @@ def epr_phase(ch: Choices, tier: str, bump, probes, faults, small: Dict[str, Any
             for q in sock.recv_rsp(number=n):
                 q.measure()
 
+    caps: List[int] = []
+
+    def capacity_probe(where: str) -> None:
+        """At the start of a flush window: how many register measurements fit into one window?  M registers are held
+        until the flush by design, so the number is bounded -- but it must be the same bound in every window."""
+        from netqasm.sdk.qubit import Qubit
+        c = 0
+        while c < 40:
+            q = Qubit(conn2)
+            try:
+                q.measure(store_array=False)
+            except Exception as e:  # noqa: BLE001
+                if "Ran out of M-registers" not in str(e):
+                    raise
+                q.free()
+                break
+            c += 1
+        conn2.flush()
+        conn2.outbox.clear()
+        caps.append(c)
+        done.append(("capacity-probe", c))
+        bump(probes, "window-capacity-probe")
+        if len(set(caps)) > 1:
+            raise Violation("capacity", "capacity|register-measurements-per-window-depend-on-history",
+                            {"capacities": caps, "where": where, "epr_history": done[-30:], **small})
+
+    probing = ch.flag(1, 2, "capacity-probing")
+    if probing and ch.flag(1, 2, "probe-first-window"):
+        capacity_probe("first window")
     for i in range(n_ops):
-        kind = EPR_KINDS[ch.draw(len(EPR_KINDS), "eprkind")]
-        n = 1 + ch.draw(2, "eprn")
+        kind = EPR_KINDS_NV[ch.draw(len(EPR_KINDS_NV), "eprkind")] if nvhw else EPR_KINDS[ch.draw(len(EPR_KINDS), "eprkind")]
+        n = 1 if nvhw else 1 + ch.draw(2, "eprn")
         done.append((kind, n))
         try:
             one(kind, n)
@@ -360,6 +404,8 @@ def epr_phase(ch: Choices, tier: str, bump, probes, faults, small: Dict[str, Any
                 raise Violation("sdk", f"sdk-exception|{type(e).__name__}|{fr.name}|epr-flush",
                                 {"error": str(e)[:300], "epr_history": done[-30:], **small})
             conn2.outbox.clear()
+            if probing and ch.flag(1, 5, "probe-now"):
+                capacity_probe(f"window after epr op {i + 1}")
     return len(done)
 
 
